@@ -810,6 +810,12 @@ class Index:
         self.facts = facts
         self.bodies = {}
         for j in facts["bodies"]:
+            # `a != b` calls the trait's default `ne` with Self in the substitutions: name it like `eq`
+            for blk in j["blocks"]:
+                t = blk["term"]
+                if t.get("k") == "call" and t.get("callee") == "std::cmp::PartialEq::ne" and t.get("substs"):
+                    t["callee"] = "<%s as std::cmp::PartialEq>::ne" % t["substs"][0]
+        for j in facts["bodies"]:
             # const fn have one runtime body here (optimized_mir); promoted/static_init are keyed apart
             self.bodies[j["key"]] = Body(j)
         self.adts = {a["path"]: a for a in facts["adts"]}
